@@ -272,8 +272,8 @@ def explore(ctx):
                 cases.append({'times': list(times), 'bounds': b, 'kepts': kepts, 'seed': ctx.seed})
     if not ctx.thorough:
         # quick: all grids for <= 3 spikes, a seed-rotating third of the grids for 4 spikes
-        cases = [c for i, c in enumerate(cases) if len(c['times']) <= 3 or (i + ctx.seed) % 3 == 0]
-        ctx.notes['quick_slice'] = 'all configurations with <= 3 spikes; every third (by seed) with 4'
+        cases = [c for i, c in enumerate(cases) if len(c['times']) <= 3 or (i + ctx.seed) % 5 == 0]
+        ctx.notes['quick_slice'] = 'all configurations with <= 3 spikes; every fifth (by seed) with 4'
     ctx.run_cases(run_case, cases, sweep='selector')
     # call histories of length 2 on one selector
     pcases = []
